@@ -58,8 +58,7 @@ pub fn build_app(threads: usize, state: LogState) -> App<LogState> {
 }
 
 pub fn free_port() -> u16 {
-    let l = TcpListener::bind("127.0.0.1:0").unwrap();
-    l.local_addr().unwrap().port()
+    hvcommon::net::free_port("127.0.0.1")
 }
 
 pub struct SyncLab {
